@@ -48,8 +48,17 @@ def canon_caption(c):
     return [exact(c.start), exact(c.end), nodes, layout_xy(c.layout_info)]
 
 
-def observe(stream, offset=0):
-    r = impl.call(lambda: SCCReader().read(stream, offset=offset))
+def observe(stream, offset=0, lang=None, history=None, outcomes=None):
+    """read `stream` with the public API. history = [(stream, kwargs), ...]: earlier reads on the SAME reader object
+    (whatever they return or raise); lang: the `lang` option (the captions are fetched under whatever language the
+    returned set carries); outcomes: list that receives how each earlier read ended"""
+    reader = SCCReader()
+    for hs, hkw in history or ():
+        hr = impl.call(lambda: reader.read(hs, **hkw))
+        if outcomes is not None:
+            outcomes.append("returned" if isinstance(hr, Ok) else type(impl.last_exc).__name__)
+    kw = {} if lang is None else {"lang": lang}
+    r = impl.call(lambda: reader.read(stream, offset=offset, **kw))
     if isinstance(r, Err):
         if r.code == 4:
             return ("len", str(impl.last_exc.args[0]))
